@@ -77,11 +77,26 @@ func genC10(rt *rapid.T) c10Prog {
 		p.Acts = append(p.Acts, c10Act{
 			Client: rapid.IntRange(0, 7).Draw(rt, "client"),
 			Kind: rapid.SampledFrom([]string{"on", "bkgon", "leaveme", "subme", "disc", "disc", "subt", "subt", "leavet", "leavet", "mute", "unmute", "wait", "wait",
-				"pub", "note", "evict", "invite"}).Draw(rt, "kind"),
+				"pub", "note", "evict", "invite", "unsubt", "obsdrop", "obsjoin", "obsjoin"}).Draw(rt, "kind"),
 			Topic: rapid.IntRange(0, 3).Draw(rt, "topic"),
 			Wait:  rapid.SampledFrom([]int{1, 3, 5, 6, 9}).Draw(rt, "wait"),
 			User:  rapid.IntRange(0, 3).Draw(rt, "user"),
 		})
+	}
+	// scripted tail, one run in three: a user with two sessions drops P on a topic through the attached session,
+	// the other session stays on 'me' only, then the attached one acknowledges and deletes messages
+	if rapid.IntRange(0, 2).Draw(rt, "tail") == 0 {
+		first := 0
+		for u := 0; u < obs; u++ {
+			if p.Sc.Sessions[u] >= 2 {
+				t := rapid.IntRange(0, 3).Draw(rt, "tailtopic")
+				p.Acts = append(p.Acts, c10Act{Client: first, Kind: "subt", Topic: t}, c10Act{Client: first + 1, Kind: "leavet", Topic: t},
+					c10Act{Client: first, Kind: "pub", Topic: t}, c10Act{Client: first, Kind: "mute", Topic: t},
+					c10Act{Client: first, Kind: "note", Topic: t}, c10Act{Client: first, Kind: "delmsg", Topic: t}, c10Act{Client: first, Kind: "wait", Wait: 1})
+				break
+			}
+			first += p.Sc.Sessions[u]
+		}
 	}
 	return p
 }
@@ -205,6 +220,9 @@ func runC10(t *testing.T, sched simrt.Schedule, prog c10Prog) ([]Violation, RunS
 			return false
 		}
 		detachedSet := map[string]bool{} // "topic/user": see below, where it is filled
+		// p2p topics one party has unsubscribed from: when the other party attaches again the deleted subscription is
+		// restored by initTopicP2P, but neither 'me' topic is told to track the other again (recorded finding)
+		partnerUnsub := map[string]bool{}
 		leakCheck := func(pre *simdb.Disk, where string) {
 			hist = append(hist, diskAt{preAt, pre, preSn})
 			post := w.Disk
@@ -318,6 +336,65 @@ func runC10(t *testing.T, sched simrt.Schedule, prog c10Prog) ([]Violation, RunS
 				ops = []*Op{opPub(name, fmt.Sprintf("p%d", tagN), false)}
 			case "note":
 				ops = []*Op{opNote(name, "read", 1)}
+			case "delmsg":
+				ops = []*Op{opDelMsg(name, false, MsgDelRange{LowId: 1, HiId: 2})}
+			case "unsubt":
+				ops = []*Op{opLeave(name, true)}
+				probe := opLeave(name, false)
+				probe.KeepID = true
+				if m := w.resolve(c, probe); m != nil && c.Connected {
+					partnerUnsub[w.globalName(c, m.Leave.Topic)] = true
+				}
+			case "obsdrop", "obsjoin":
+				// the observer deletes its subscription to the p2p topic with the first user, or subscribes (again)
+				// and detaches at once: a new subscription must bring the partner's status with it
+				var oc *SimClient
+				for _, x := range w.clientsOf(obsUser) {
+					if x.Connected && oc == nil {
+						oc = x
+					}
+				}
+				if oc == nil {
+					continue
+				}
+				c = oc
+				pname := fmt.Sprintf("@usr%d", 0)
+				// the subscription exists between the two requests: judge the frames of each against its own states
+				step1 := func() bool {
+					w.setOps(map[int][]*Op{c.Idx: {opSub(pname, "", "")}})
+					if r := w.rt.Run(600*time.Millisecond, nil); r == simrt.RunLivelock {
+						return false
+					}
+					absorb()
+					leakCheck(pre, where+" (sub)")
+					pre = takePre()
+					return true
+				}
+				if a.Kind == "obsdrop" {
+					if !step1() {
+						return append(out, vio("C14", "livelock", "step budget exhausted at %s", where))
+					}
+					ops = []*Op{opLeave(pname, true)}
+					// the observer gives the contact up: what it knew is void (the session that unsubscribes is not
+					// sent a "gone"), and the partner attaching later restores the subscription silently
+					gone := w.Users[obsUser].Uid.P2PName(w.Users[0].Uid)
+					for _, x := range w.clientsOf(obsUser) {
+						told[x.Idx][gone] = "gone"
+					}
+					partnerUnsub[gone] = true
+				} else {
+					topic := w.Users[obsUser].Uid.P2PName(w.Users[0].Uid)
+					if sr := w.Disk.Subs[simdbSubKey(topic, w.Users[obsUser].Uid)]; sr == nil || sr.DeletedAt != nil {
+						for _, x := range w.clientsOf(obsUser) {
+							told[x.Idx][topic] = "off" // nothing is known about a new contact
+						}
+						simrt.Probe("c10.observer_new_subscription")
+					}
+					if !step1() {
+						return append(out, vio("C14", "livelock", "step budget exhausted at %s", where))
+					}
+					ops = []*Op{opLeave(pname, false)}
+				}
 			case "evict", "invite":
 				if len(sc.Groups) == 0 {
 					continue
@@ -399,7 +476,11 @@ func runC10(t *testing.T, sched simrt.Schedule, prog c10Prog) ([]Violation, RunS
 				if last == "gone" {
 					continue
 				}
-				if (last == "on") != truth {
+				if (last == "on") != truth && (detachedSet[topic+"/"+ou.Uid.UserId()] || detachedSet[topic+"/"+other.Uid.UserId()]) {
+					out = append(out, vio("C10", "presence-diverged after-detached-set", "observer client %d was last told %q about %s (foreground session on 'me' = %v); one of the two changed its mode on %s through a session not attached to it, the loaded topic still works with the old mode", oc.Idx, last, other.Uid.UserId(), truth, topic))
+				} else if (last == "on") != truth && partnerUnsub[topic] {
+					out = append(out, vio("C10", "p2p-presence-diverged after-partner-subscription-restored", "observer client %d was last told %q about %s, whose subscription to %s was deleted by its owner and restored by the observer's {sub}; that user has foreground session on 'me' = %v", oc.Idx, last, other.Uid.UserId(), topic, truth))
+				} else if (last == "on") != truth {
 					out = append(out, vio("C10", fmt.Sprintf("p2p-presence-diverged told=%s", last), "observer client %d was last told %q about %s, but that user has foreground session on 'me' = %v", oc.Idx, last, other.Uid.UserId(), truth))
 				}
 			}
@@ -439,8 +520,10 @@ func runC10(t *testing.T, sched simrt.Schedule, prog c10Prog) ([]Violation, RunS
 						continue
 					}
 				}
-				if (last == "on") != truth {
-					out = append(out, vio("C10", fmt.Sprintf("group-presence-diverged told=%s", last), "observer client %d was last told %q about %s, but the group has attached sessions = %v", oc.Idx, last, w.Groups[g], truth))
+				if (last == "on") != truth && detachedSet[w.Groups[g]+"/"+ou.Uid.UserId()] {
+					out = append(out, vio("C10", "presence-diverged after-detached-set", "observer client %d was last told %q about %s (attached sessions = %v); the observer changed its mode on it through a session not attached to it", oc.Idx, last, w.Groups[g], truth))
+				} else if (last == "on") != truth {
+					out = append(out, vio("C10", fmt.Sprintf("group-presence-diverged told=%s", last), "observer client %d was last told %q about %s, but the group has attached sessions = %v (loaded=%v, sessions %v)", oc.Idx, last, w.Groups[g], truth, ts != nil, func() []string { var x []string; if ts != nil { for sid := range ts.Sessions { x = append(x, sid) } }; sort.Strings(x); return x }()))
 				}
 			}
 		}
